@@ -30,6 +30,15 @@ Proof.
   - apply rebuild_perm; [exact H|apply py_sorted_perm].
 Qed.
 
+Lemma sort_key_inv s m r : Inv s -> Inv (m_sort_key s m r) /\ m_live (m_sort_key s m r) = py_sorted_key (m_live s) m r.
+Proof.
+  intros [H HL]. unfold m_sort_key.
+  destruct (list_eqb slot_eqb (map Some (py_sorted_key (m_live s) m r)) (items s)) eqn:E.
+  - apply (list_eqb_eq slot_eqb slot_eqb_eq) in E. split; [split; assumption|].
+    unfold m_live at 1. rewrite <- E. apply live_of_map_some.
+  - apply rebuild_perm; [exact H|apply py_sorted_key_perm].
+Qed.
+
 Lemma reverse_inv s : Inv s -> Inv (m_reverse s) /\ m_live (m_reverse s) = rev (m_live s).
 Proof.
   intros [H HL]. unfold m_reverse. apply rebuild_perm; [exact H|apply Permutation_sym, Permutation_rev].
